@@ -2,10 +2,11 @@ from checks.generic import standard
 
 def run(ctx):
     return standard(ctx,
-        props=[("Props.C18", ["c18_escape_safe", "c18_hidden_input", "c18_old_input_refuted"])],
+        props=[("Props.C18", ["c18_escape_safe", "c18_hidden_input", "c18_old_input_refuted", "c18_escaped_fields_inert", "c18_document_no_raw", "c18_page_fields_inert", "c18_typed_failure_refuted", "c18_raw_field_refuted"])],
         harness=("TestVerif_C18", ["kmd/common.go", "kmd/creds.go", "kmd/c18.go"]),
-        obl=("Obl_C18.v", ["c18_raw_sinks", "c18_login_input_escaped", "c18_direct_writes"]),
-        cases=("CasesC18.v", [("c18_mismatches", "VALUE attribute of the hidden INPUT in served pages = html_escape(ensureHTMLSafeLoginDestination(dest))")], "CasesC18.idx"),
+        obl=("Obl_C18.v", ["c18_raw_sinks", "c18_login_input_escaped", "c18_direct_writes", "c18_templates_html", "c18_text_templates_offline", "c18_html_typed_writers"]),
+        cases=("CasesC18.v", [("c18_mismatches", "VALUE attribute of the hidden INPUT in served pages = html_escape(ensureHTMLSafeLoginDestination(dest))"),
+                             ("c18_failure_mismatches", "writeFailureResponse = failure_response of the model: declared type, body bytes, rendered-as-document verdict", "CasesC18f.idx")], "CasesC18.idx"),
         trusted=["html/template contextual auto-escaping of ordinary template fields (exercised by canaries, not modelled)",
                  "golang.org/x/net/html tokenizer as the HTML5 parser of the oracle",
                  "tools/extract: table of conversions to template.HTML and friends"],
